@@ -36,7 +36,7 @@ Definition eBadTSIG := 32.             (* dns.message.BadTSIG  (FormError family
 Definition eBadEDNS := 33.             (* dns.message.BadEDNS  (FormError family) *)
 Definition eShortHeader := 34.         (* dns.message.ShortHeader (FormError family) *)
 Definition eTrailingJunk := 35.        (* dns.message.TrailingJunk (FormError family) *)
-Definition eUnsupported := 90.         (* outside the model: GSS-TSIG, UPDATE opcode, OPT, callable keyring *)
+Definition eUnsupported := 90.         (* outside the model: GSS-TSIG, UPDATE opcode, callable keyring *)
 Definition iStructError := 101.
 Definition iAssert := 104.
 
@@ -335,7 +335,22 @@ Section WithH.
   Record rst := { r_pos : nat;                           (* parser.current *)
                   r_tsig : option (name * tsig);         (* message.tsig *)
                   r_ctx : option hctx;                   (* message.tsig_ctx *)
-                  r_recs : list (Z * Z * Z * nat) }.     (* (section, type, class, start) of every RR read, reversed *)
+                  r_recs : list (Z * Z * Z * nat);       (* (section, type, class, start) of every RR read, reversed *)
+                  r_opt : bool }.                        (* message.opt is set *)
+
+  (* OPT.from_wire_parser between pos and endp: option code, option length, option data;
+     the model covers options whose data is opaque (GenericOption: get_remaining) *)
+  Fixpoint opt_options (w : bytes) (endp pos : nat) (fuel : nat) : res unit :=
+    if Nat.leb endp pos then Ok tt
+    else match fuel with
+         | O => Internal iAssert
+         | S f =>
+             do tp <- get_uint w endp pos 2;
+             do lp <- get_uint w endp (snd tp) 2;
+             let olen := Z.to_nat (fst lp) in
+             if Nat.ltb (endp - snd lp) olen then Lib eFormError
+             else opt_options w endp (snd lp + olen) f
+         end.
 
   (* _get_question: names and 4 octets each; nothing TSIG-specific can happen here *)
   Fixpoint get_question (w : bytes) (n : nat) (pos : nat) : res nat :=
@@ -378,7 +393,14 @@ Section WithH.
     let rdtype := fst tp in let rdclass := fst cp in
     let rdlen := Z.to_nat (fst dp) in let rdata_start := snd dp in
     let recs := (section, rdtype, rdclass, rr_start) :: r_recs st in
-    if rdtype =? OPT then Lib eUnsupported
+    if rdtype =? OPT then
+      (* _parse_special_rr_header: ADDITIONAL only, at most one, owner must be the root *)
+      if negb (section =? 3) || r_opt st || negb (NameM.name_eqb owner NameM.root) then Lib eBadEDNS
+      else if Nat.ltb (length w - rdata_start) rdlen then Lib eFormError
+      else
+        do _ <- wrap_formerror (opt_options w (rdata_start + rdlen) rdata_start (S rdlen));
+        Ok {| r_pos := (rdata_start + rdlen)%nat; r_tsig := r_tsig st;
+              r_ctx := r_ctx st; r_recs := recs; r_opt := true |}
     else if rdtype =? TSIG then
       (* _parse_special_rr_header *)
       if negb (section =? 3) || negb (rdclass =? ANY) || negb (i =? count - 1) then Lib eBadTSIG
@@ -395,12 +417,12 @@ Section WithH.
                       | None => Ok (r_ctx st)
                       end);
           Ok {| r_pos := (rdata_start + rdlen)%nat; r_tsig := Some (owner, rd);
-                r_ctx := ctx'; r_recs := recs |}
+                r_ctx := ctx'; r_recs := recs; r_opt := r_opt st |}
     else
       (* any other type: the model covers types whose rdata is opaque (get_remaining) *)
       if Nat.ltb (length w - rdata_start) rdlen then Lib eFormError
       else Ok {| r_pos := (rdata_start + rdlen)%nat; r_tsig := r_tsig st;
-                 r_ctx := r_ctx st; r_recs := recs |}.
+                 r_ctx := r_ctx st; r_recs := recs; r_opt := r_opt st |}.
 
   Fixpoint get_section (w : bytes) (kr : keyring) (rmac : bytes) (now : Z) (multi : bool)
            (section : Z) (count : Z) (rem : nat) (st : rst) : res rst :=
@@ -428,7 +450,7 @@ Section WithH.
       if (fst fl / 2048) mod 16 =? 5 then Lib eUnsupported      (* UPDATE messages: not modelled *)
       else
         do p <- get_question w (Z.to_nat (fst qd)) 12;
-        let st0 := {| r_pos := p; r_tsig := None; r_ctx := ctx; r_recs := [] |} in
+        let st0 := {| r_pos := p; r_tsig := None; r_ctx := ctx; r_recs := []; r_opt := false |} in
         do st1 <- get_section w kr rmac now multi 1 (fst an) (Z.to_nat (fst an)) st0;
         do st2 <- get_section w kr rmac now multi 2 (fst au) (Z.to_nat (fst au)) st1;
         do st3 <- get_section w kr rmac now multi 3 (fst ad) (Z.to_nat (fst ad)) st2;
